@@ -298,6 +298,77 @@ var conStructs = map[string][]fieldSpec{
 	"SliceEnc":    {{"elems", "[]Col"}},
 }
 
+// ---- exp/zapslog/handler.go.  slog values are opaque (`SlogValue`): their kind, their resolution, their group members
+// and their scalar payloads are intrinsics; zap field constructors are free constructors.  A Handler is the primary
+// object; `cloned := *h` is the second one.  `append` to a slice field is refused here (noFieldAppend): derived
+// handlers must not share the backing array of `groups`.
+var slogFields = map[string]fieldSpec{
+	"core": {"core", "Core"}, "name": {"name", "string"}, "addCaller": {"addCaller", "bool"}, "addStackAt": {"addStackAt", "int"},
+	"callerSkip": {"callerSkip", "int"}, "groups": {"groups", "[]string"}, "#ev": {"ev", "[]Event"},
+}
+var slogOther = map[string]fieldSpec{
+	"core": {"o.core", "Core"}, "name": {"o.name", "string"}, "addCaller": {"o.addCaller", "bool"}, "addStackAt": {"o.addStackAt", "int"},
+	"callerSkip": {"o.callerSkip", "int"}, "groups": {"o.groups", "[]string"},
+}
+var slogTypes = map[string]string{"slog.Level": "int", "zapcore.Level": "i8", "slog.Attr": "struct:SlogAttr", "zapcore.Field": "Field",
+	"slog.Handler": "Handler", "slog.Record": "struct:SlogRecord", "context.Context": "Ctx", "groupObject": "[]struct:SlogAttr",
+	"zapcore.Entry": "struct:Entry", "zapcore.EntryCaller": "struct:EntryCaller", "time.Time": "Time", "uintptr": "u64"}
+var slogStructs = map[string][]fieldSpec{
+	"SlogAttr":    {{"Key", "string"}, {"Value", "SlogValue"}},
+	"SlogRecord":  {{"Level", "int"}, {"Time", "Time"}, {"Message", "string"}, {"PC", "u64"}, {"Attrs", "RecordAttrs"}},
+	"Entry":       {{"Level", "i8"}, {"Time", "Time"}, {"Message", "string"}, {"LoggerName", "string"}},
+	"EntryCaller": {{"Defined", "bool"}, {"PC", "u64"}, {"File", "string"}, {"Line", "int"}, {"Function", "string"}},
+	"Frame":       {{"PC", "u64"}, {"File", "string"}, {"Line", "int"}, {"Function", "string"}},
+	"CE":          {{"Caller", "struct:EntryCaller"}, {"Stack", "string"}, {"Rest", "CERest"}},
+}
+var slogConsts = map[string]string{
+	"slog.LevelError": "8", "slog.LevelWarn": "4", "slog.LevelInfo": "0",
+	"zapcore.ErrorLevel": "i8:2", "zapcore.WarnLevel": "i8:1", "zapcore.InfoLevel": "i8:0", "zapcore.DebugLevel": "i8:-1",
+	"slog.KindAny": "0", "slog.KindBool": "1", "slog.KindDuration": "2", "slog.KindFloat64": "3", "slog.KindInt64": "4",
+	"slog.KindString": "5", "slog.KindTime": "6", "slog.KindUint64": "7", "slog.KindGroup": "8", "slog.KindLogValuer": "9",
+}
+var slogCalls = map[string]shim{
+	"SlogValue.Resolve":     {kind: "ext", f: "Value.Resolve", res: []string{"SlogValue"}},
+	"SlogValue.Kind":        {kind: "ext", f: "Value.Kind", res: []string{"int"}},
+	"SlogValue.Group":       {kind: "ext", f: "Value.Group", res: []string{"[]struct:SlogAttr"}},
+	"struct:SlogAttr.Equal": {kind: "ext", f: "Attr.Equal", res: []string{"bool"}},
+	"SlogValue.Bool":        {kind: "ext", f: "Value.Payload", res: []string{"Payload"}},
+	"SlogValue.Duration":    {kind: "ext", f: "Value.Payload", res: []string{"Payload"}},
+	"SlogValue.Float64":     {kind: "ext", f: "Value.Payload", res: []string{"Payload"}},
+	"SlogValue.Int64":       {kind: "ext", f: "Value.Payload", res: []string{"Payload"}},
+	"SlogValue.String":      {kind: "ext", f: "Value.Payload", res: []string{"Payload"}},
+	"SlogValue.Time":        {kind: "ext", f: "Value.Payload", res: []string{"Payload"}},
+	"SlogValue.Uint64":      {kind: "ext", f: "Value.Payload", res: []string{"Payload"}},
+	"SlogValue.Any":         {kind: "ext", f: "Value.Payload", res: []string{"Payload"}},
+	"zap.Skip":              {kind: "ext", f: "zap.Skip", res: []string{"Field"}},
+	"zap.Bool":              {kind: "ext", f: "zap.Bool", res: []string{"Field"}},
+	"zap.Duration":          {kind: "ext", f: "zap.Duration", res: []string{"Field"}},
+	"zap.Float64":           {kind: "ext", f: "zap.Float64", res: []string{"Field"}},
+	"zap.Int64":             {kind: "ext", f: "zap.Int64", res: []string{"Field"}},
+	"zap.String":            {kind: "ext", f: "zap.String", res: []string{"Field"}},
+	"zap.Time":              {kind: "ext", f: "zap.Time", res: []string{"Field"}},
+	"zap.Uint64":            {kind: "ext", f: "zap.Uint64", res: []string{"Field"}},
+	"zap.Any":               {kind: "ext", f: "zap.Any", res: []string{"Field"}},
+	"zap.Inline":            {kind: "ext", f: "zap.Inline", res: []string{"Field"}},
+	"zap.Object":            {kind: "ext", f: "zap.Object", res: []string{"Field"}},
+	"zap.Namespace":         {kind: "ext", f: "zap.Namespace", res: []string{"Field"}},
+	"hasContent":            {kind: "fun", f: "hasContent", res: []string{"bool"}},
+	"convertAttrToField":    {kind: "fun", f: "convertAttrToField", res: []string{"Field"}},
+	"convertSlogLevel":      {kind: "fun", f: "convertSlogLevel", res: []string{"i8"}},
+	"recv.appendGroups":     {kind: "fun", f: "appendGroups", res: []string{"[]Field"}},
+	"Core.With":             {kind: "ext", f: "Core.With", res: []string{"Core"}},
+	"make":                  {kind: "ext", f: "make.strings", res: []string{"[]string"}},
+	"copy":                  {kind: "mutarg:0", f: "copy", res: []string{"int"}},
+	"slice.set":             {kind: "ext", f: "slice.set"},
+}
+
+func slogFunc(recv, name string, extra map[string]shim) transFunc {
+	return transFunc{file: "exp/zapslog/handler.go", recv: recv, name: name, lean: name, fields: slogFields, recvAs: &fieldSpec{"self", "Handler"},
+		other: slogOther, otherAs: &fieldSpec{"o.self", "Handler"}, types: slogTypes, structs: slogStructs, consts: slogConsts,
+		zeros: map[string]string{"SlogValue": ".list []"}, comparable: []string{"Field"}, noFieldAppend: true,
+		calls: merge(slogCalls, extra)}
+}
+
 var stdCalls = map[string]shim{
 	"bytes.IndexByte":       {kind: "builtin", f: "bytes.IndexByte", res: []string{"int"}},
 	"strings.IndexByte":     {kind: "builtin", f: "strings.IndexByte", res: []string{"int"}},
@@ -552,6 +623,27 @@ var transSpecs = []transSpec{
 				"recv.addSeparatorIfNecessary": {kind: "funarg:0", f: "addSeparatorIfNecessary"},
 				"recv.writeContext":            {kind: "funarg:0", f: "writeContext"},
 			})},
+	}},
+	{table: "TransSlog", funcs: []transFunc{
+		slogFunc("", "convertSlogLevel", nil),
+		slogFunc("", "hasContent", nil),
+		slogFunc("", "convertAttrToField", nil),
+		slogFunc("Handler", "appendGroups", nil),
+		slogFunc("Handler", "WithGroup", nil),
+		slogFunc("Handler", "WithAttrs", nil),
+		func() transFunc {
+			f := slogFunc("Handler", "Handle", map[string]shim{
+				"Core.Check": {kind: "ext", f: "Core.Check", res: []string{"ptr:struct:CE"}},
+				"runtime.CallersFrames([]uintptr{…}).Next": {kind: "extstmt", f: "runtime.frameOf", res: []string{"struct:Frame", "bool"},
+					xargs: []string{"record.PC"}},
+				"stacktrace.Take": {kind: "ext", f: "stacktrace.Take", res: []string{"string"}},
+			})
+			// the attribute iteration (record.Attrs with a closure: the same insertion loop as WithAttrs) and ce.Write are
+			// ONE recorded intrinsic; what precedes it — level mapping, the Check gate, caller and stack — is translated
+			f.tail = &tailSpec{from: "fields := make([]zapcore.Field, 0, record.NumAttrs()+len(h.groups))", f: "Handler.convertAndWrite",
+				args: []string{"ce", "record"}, res: "error", trace: "#ev"}
+			return f
+		}(),
 	}},
 	{table: "TransLogger", funcs: []transFunc{
 		{file: "logger.go", name: "terminalHookOverride", lean: "terminalHookOverride", types: loggerTypes, consts: hookConsts},
